@@ -686,6 +686,10 @@ func Equal(a, b interface{}) bool {
 	return deepEq(reflect.ValueOf(a), reflect.ValueOf(b))
 }
 
+// PermuteSomeMaps: symbolic-only switch - up to n map ranges of the code that
+// follows iterate in an arbitrary order (0 switches it off).
+func PermuteSomeMaps(n int) {}
+
 // PoolLeftovers: symbolic-only switch - an object taken from a sync.Pool may
 // carry state another request left in it (one designated Get per path).
 func PoolLeftovers(on bool) {}
